@@ -23,7 +23,7 @@ import (
 
 func (dec *Decoder) stringToComplex64(s string) complex64 {
 	c, err := complexconv.ParseComplex(s, 64)
-	if err != nil {
+	if err != nil && dec.Error == nil {
 		dec.Error = err
 	}
 	return complex64(c)
@@ -31,7 +31,7 @@ func (dec *Decoder) stringToComplex64(s string) complex64 {
 
 func (dec *Decoder) stringToComplex128(s string) complex128 {
 	c, err := complexconv.ParseComplex(s, 128)
-	if err != nil {
+	if err != nil && dec.Error == nil {
 		dec.Error = err
 	}
 	return c
